@@ -47,7 +47,7 @@ PROFILES = {
     "C05": {"w": _p(measure=14, op1=9, opx=8, struct=5, povm=1, fault=2), "clients": (1, 2), "fault_rate": 0.05, "faults": ["use_destroyed"]},
     "C06": {"w": _p(kraus=16, op1=8, opx=7, struct=5, measure=1), "clients": (1, 1), "fault_rate": 0.0},
     "C07": {"w": _p(), "clients": (1, 2), "fault_rate": 0.0, "nonunitary": 0.3},
-    "C08": {"w": _p(struct=14, config=3, kraus=5, op1=10, opx=6), "clients": (1, 1), "fault_rate": 0.0, "struct_bias": "level"},
+    "C08": {"w": _p(struct=14, config=3, kraus=5, op1=10, opx=6), "clients": (1, 1), "fault_rate": 0.0, "struct_bias": "level", "no_estimator": True},
     "C09": {"w": _p(povm=16, op1=9, opx=8, struct=5, measure=1, kraus=2), "clients": (1, 1), "fault_rate": 0.0},
     "C10": {"w": _p(resize=14, op1=12, opx=5, struct=5, kraus=2, measure=1), "clients": (1, 1), "fault_rate": 0.06, "faults": ["shrink_below_support"], "fock_bias": True},
     "C11": {"w": _p(opx=16, op1=10, struct=5, measure=2, kraus=1, povm=0.3, resize=1), "clients": (1, 1), "fault_rate": 0.0, "fock_bias": True, "optics": True, "min_envs": 2},
@@ -388,7 +388,7 @@ class Gen:
         if c < 0.84 and b is not None and b.D <= 12 and s <= 3:
             d = s + rng.choice([1, 1, 2, 3]) if s >= 1 else rng.choice([2, 3])
             return {"t": "F.Custom", "d": max(d, 2), "u": "haar", "seed": rng.randint(1, 30)}
-        if b is not None and b.D <= 16 and s <= 2:
+        if b is not None and b.D <= 16 and s <= 2 and not self.prof.get("no_estimator"):
             if rng.random() < 0.6:
                 a = rng.choice(ALPHAS)
                 return {"t": "F.Displace", "re": a[0], "im": a[1]}
